@@ -4,6 +4,7 @@ package main
 
 import (
 	"bytes"
+	"compress/gzip"
 	"encoding/json"
 	"errors"
 	"fmt"
@@ -54,6 +55,22 @@ func c10Value(kind string) interface{} {
 	}
 	return "boom-string"
 }
+
+// c10Bomb panics while the entity reader decodes into it (a panic raised inside ReadEntity).
+type c10Bomb struct{}
+
+var c10BombVal interface{}
+
+func (*c10Bomb) UnmarshalJSON([]byte) error { panic(c10BombVal) }
+
+// c10GzipBody: a well-formed gzip-encoded JSON request body.
+var c10GzipBody = func() string {
+	var b bytes.Buffer
+	zw := gzip.NewWriter(&b)
+	io.WriteString(zw, `{"a":1}`)
+	zw.Close()
+	return b.String()
+}()
 
 type c10World struct {
 	c        *restful.Container
@@ -111,6 +128,10 @@ func c10Build(cs c10Case) *c10World {
 		if pos == "h:pre" {
 			panic(w.val)
 		}
+		if pos == "h:read" {
+			c10BombVal = w.val
+			req.ReadEntity(&c10Bomb{}) // gzip-encoded body: the panic is raised while a pooled reader is in use
+		}
 		if pos == "h:entity" {
 			resp.WriteEntity(c13Ent{"entity"})
 			panic(w.val)
@@ -144,7 +165,7 @@ func c10Positions(shape [3]int, noRoute bool) []string {
 	for i := 0; i < shape[2]; i++ {
 		out = append(out, fmt.Sprintf("pre:r%d", i), fmt.Sprintf("post:r%d", i))
 	}
-	return append(out, "h:pre", "h:mid", "h:entity", "cond")
+	return append(out, "h:pre", "h:mid", "h:entity", "cond", "h:read")
 }
 
 type c10Resp struct {
@@ -168,6 +189,10 @@ func (w *c10World) do(cs c10Case, pos string, segs ...string) c10Resp {
 	}
 	if cs.Enc != "" {
 		q.Hdr = append(q.Hdr, [2]string{"Accept-Encoding", cs.Enc})
+	}
+	if pos == "h:read" {
+		q.Hdr = append(q.Hdr, [2]string{"Content-Type", "application/json"}, [2]string{"Content-Encoding", "gzip"})
+		q.Body = c10GzipBody
 	}
 	rec := h.NewRec()
 	var r c10Resp
